@@ -114,14 +114,16 @@ fn compute_diffusion_map<F: Float>(
     assert!(embedding_size < kernel.size());
 
     let d = kernel.sum().mapv(|x| x.recip());
+    // symmetric normalisation D^-(1/2 + alpha) K D^-(1/2 + alpha), shared by both branches
+    let d2 = d.mapv(|x| x.powf(F::cast(0.5 + alpha)));
 
     let (vals, vecs) = if kernel.size() < 5 * embedding_size + 1 {
         // use full eigenvalue decomposition for small problem sizes
-        let mut matrix = kernel.dot(&Array2::from_diag(&d).view());
+        let mut matrix = kernel.dot(&Array2::from_diag(&d2).view());
         matrix
-            .columns_mut()
+            .rows_mut()
             .into_iter()
-            .zip(d.iter())
+            .zip(d2.iter())
             .for_each(|(mut a, b)| a *= *b);
 
         let matrix = matrix.with_lapack();
@@ -141,7 +143,6 @@ fn compute_diffusion_map<F: Float>(
             vecs.slice_move(s![.., 1..=embedding_size]),
         )
     } else {
-        let d2 = d.mapv(|x| x.powf(F::cast(0.5 + alpha)));
         // calculate truncated eigenvalue decomposition
         let x = guess
             .unwrap_or_else(|| {
